@@ -76,7 +76,9 @@ theorem barTrace_second_refresh (cfg : Cfg) (sc : Script) (row : Nat) (ts : Int)
     have a_s2 := any_okEarly_of_allAt (show AllAt ts 10 p.s2.1 by rw [hs2]; exact setUpdatedFrom_at cfg ts 0 _ _) m
     have a_u := any_okEarly_of_allAt (show AllAt ts 11 p.u.1 by rw [← hp]; exact runUpdFrom_at sc ts row 0 _ _) m
     have a_a := any_okEarly_of_allAt (show AllAt ts 13 p.a.1 by rw [← hp]; exact runOps_at ts .after _ _) m
-    have a_no := any_okEarly_of_allAt (notifs_at ts p.a.2.cur) m
+    have a_no : p.nt.1.any (okEarly m) = false := by
+      have := any_okEarly_of_allAt (show AllAt ts 15 p.nt.1 by rw [← hp]; exact runNotify_at sc ts row _ _ _) m
+      simpa using this
     have z1 : anyOk m p.s1.1 = false := by rw [hs1e]; exact anyOk_setAllFrom cfg ts 1 m 0 _
     simp only [BarParts.trace, List.any_append, List.any_cons, a_s1, a_b, a_f, a_o, a_n, a_s2, a_u, a_a, a_no, z1, okEarly, okOn,
       anyOk_append]
